@@ -240,8 +240,10 @@ func (e *emu) process() {
 				e.csi(string(e.pend[2:i]), e.pend[i])
 				e.pend = e.pend[i+1:]
 			case ']': // OSC ... BEL | ST
+				// (ESC is an "anywhere" transition of the DEC parser: another escape sequence ends the string - a buffer
+				//  that contains ESC ] must not make the terminal deaf to the cursor queries that follow it)
 				i := 2
-				for i < len(e.pend) && e.pend[i] != 7 && !(e.pend[i] == 0x1b && i+1 < len(e.pend) && e.pend[i+1] == '\\') {
+				for i < len(e.pend) && e.pend[i] != 7 && e.pend[i] != 0x1b {
 					i++
 				}
 				if i >= len(e.pend) {
@@ -250,7 +252,14 @@ func (e *emu) process() {
 				if e.pend[i] == 7 {
 					e.pend = e.pend[i+1:]
 				} else {
-					e.pend = e.pend[i+2:]
+					if i+1 >= len(e.pend) {
+						return
+					}
+					if e.pend[i+1] == '\\' {
+						e.pend = e.pend[i+2:]
+					} else {
+						e.pend = e.pend[i:]
+					}
 				}
 			default:
 				e.pend = e.pend[2:]
